@@ -34,7 +34,7 @@ func verifSyncRun(o *vh.Out, id string, pre, nR, nW, nC int, sched []int, r *vh.
 				buf := make([]byte, 8)
 				_, err := b.Read(buf)
 				switch {
-				case err == nil:
+				case err == nil || errors.Is(err, io.ErrShortBuffer):
 					results[i] = "got"
 				case errors.Is(err, io.EOF):
 					results[i] = "eof"
@@ -44,7 +44,12 @@ func verifSyncRun(o *vh.Out, id string, pre, nR, nW, nC int, sched []int, r *vh.
 			})
 		case i < nR+nW:
 			names[i] = cosched.Go("w", func() {
-				_, err := b.Write([]byte{byte(i)})
+				// every other writer's packet is longer than the readers' slices (a short read is still a read)
+				payload := []byte{byte(i)}
+				if i%2 == 1 {
+					payload = make([]byte, 12)
+				}
+				_, err := b.Write(payload)
 				if err == nil {
 					results[i] = "wrote"
 				} else {
@@ -91,7 +96,9 @@ func verifSyncRun(o *vh.Out, id string, pre, nR, nW, nC int, sched []int, r *vh.
 	}
 	cosched.Quiesce(2 * time.Second)
 	step := 0
+	eofWithData := 0
 	biased := sched == nil && r.Chance(50)
+	phased := sched == nil && r.Chance(25)
 	pcOf := func(name string) string {
 		for _, p := range cosched.Positions() {
 			if p.Name == name {
@@ -123,7 +130,28 @@ func verifSyncRun(o *vh.Out, id string, pre, nR, nW, nC int, sched []int, r *vh.
 			}
 		} else {
 			t = index[ay[r.Intn(len(ay))]]
-			if biased {
+			if phased {
+				// readers into the window first, then every writer, then every closer, then whatever is left
+				pick := -1
+				for _, nm := range ay {
+					i := index[nm]
+					if i < nR && !strings.Contains(pcOf(nm), ":select#") {
+						pick = i
+						break
+					}
+				}
+				if pick < 0 {
+					for _, nm := range ay {
+						if i := index[nm]; i >= nR {
+							pick = i // writers come before closers in creation order
+							break
+						}
+					}
+				}
+				if pick >= 0 {
+					t = pick
+				}
+			} else if biased {
 				// readers first: bring every reader as far as the wait (between unlock and select, or parked)
 				// before anything else runs; once none can be advanced that way, continue at random
 				for _, nm := range ay {
@@ -135,18 +163,33 @@ func verifSyncRun(o *vh.Out, id string, pre, nR, nW, nC int, sched []int, r *vh.
 				}
 			}
 		}
+		eofBefore := countEOF(results)
 		if !cosched.Step(names[t], 2*time.Second) {
 			o.Op(fmt.Sprintf("step %d", t), "stuck "+line(), "")
 			break
 		}
+		// a Read that reports end-of-file while packets are still buffered (nothing can be added after Close)
+		if countEOF(results) > eofBefore && b.Count() > 0 {
+			eofWithData++
+		}
 		o.Op(fmt.Sprintf("step %d", t), line(), "")
 		step++
 	}
-	o.Op("end # "+line(), "end", "")
+	o.Op(fmt.Sprintf("end # %s bad=%d", line(), eofWithData), "end", "")
 	// release everything that is still blocked
 	cosched.Disable()
 	_ = b.Close()
 	cosched.Quiesce(2 * time.Second)
+}
+
+func countEOF(results []string) int {
+	n := 0
+	for _, r := range results {
+		if r == "eof" {
+			n++
+		}
+	}
+	return n
 }
 
 func contains(l []string, x string) bool {
